@@ -36,3 +36,7 @@ func TestC04Cells(t *testing.T) { RunEnum(t, "C04", "alphabet", enumCells, check
 func TestC04Hist(t *testing.T)  { RunProp(t, "C04", "history", genHistCase, checkC04Hist) }
 
 func TestC05(t *testing.T) { RunProp(t, "C05", "faults", genFaultCase, checkC05) }
+
+func TestC06(t *testing.T) { RunProp(t, "C06", "limit", genLimitCase, checkC06) }
+
+func TestC08(t *testing.T) { RunProp(t, "C08", "control", genCtlCase, checkC08) }
